@@ -7,7 +7,7 @@ import io_gen as G
 
 
 def main():
-    ck = Check("C08", "exploration")
+    ck = Check("C08", "proof")
     build_repo()
     pr = ck.proofs()
     run_roundtrip_check(ck, "LP", pr, G)
@@ -17,9 +17,17 @@ def main():
                       "each: mpq_QSwrite_prob LP -> mpq_QSget_prob (error memory) -> dump by name of both -> Coq-extracted equiv_by_name after applying the "
                       "renames the writer announced; second generation; plain/.gz/.bz2 targets (EGio and independent decompression); QSexact_solver on both "
                       "when all magnitudes are within 1e-40..1e40 and dropped empty rows are satisfiable; non-trivial = comparison reached; distinct by problem text + stage")
-    ck.cov["not_covered"] = ("token/byte-level model of ILLwrite_lp / ILLread_lp (fix_names, term layout, wrapping) is not proved: the round trip itself is explored, "
-                             "its sub-codecs (numbers, bound elision, range splitting) and the comparison oracle are proved")
-    ck.assumptions = ["Coq kernel; extraction (ExtrOcamlBasic, ExtrOcamlString); OCaml", "harness h_io.c dumps through the query API", "names interned to N by checks/io_common.py"]
+    ck.cov["rule"] += ("; families added for the writer model: long objectives/rows that wrap several times with both signs around the wrap points, "
+                       "columns named like keywords with free / one-sided bounds, half of the problems built with rows added before some columns "
+                       "(structmap not the identity); every file written by the library is compared byte for byte with the extracted IO/LpWrite.write_lp "
+                       "applied to the dump of the problem (after the announced renames)")
+    ck.cov["not_covered"] = ("theorem C08_lp_roundtrip is about the line-level models (IO/LpWrite.v, IO/LpRead.v): tied to the library by whole-file comparison "
+                             "(writer, here) and by outcome comparison on rendered / mutated / written files (reader, C10), not proved about the C code; "
+                             "fix_names (name repair) is modelled and proved to give valid distinct names (C08_fix_names_ok, compared with the announced renames on every file) "
+                             "but its composition with the round trip is evaluated per instance (wf_lpb on the repaired problem), not one theorem; bytes vs lines: "
+                             "C08_lp_roundtrip_bytes covers files whose lines fit the 131069-byte line buffer, longer lines and .gz/.bz2 explored only")
+    ck.assumptions = ["Coq kernel; extraction (ExtrOcamlBasic, ExtrOcamlString); OCaml", "harness h_io.c dumps through the query API (plus lp->objname and intmarker != NULL)", "names interned to N by checks/io_common.py",
+                      "write_lp / read_lp_res are models: equality with ILLwrite_lp is checked on every file written in the run, with ILLread_lp in C10"]
     ck.finish(trusted_base=["coqc 8.16.1 kernel", "OCaml extraction", "harness/h_io.c + checks/io_common.py + checks/C08.py"])
 
 
